@@ -538,3 +538,59 @@ Proof.
   destruct (compile_new sn Hwf d q Hq) as [s' [E' Hnew]]. rewrite E in E'. inversion E'; subst s'.
   eapply (script_new lf (Cl sn W d) (2 * d + 1) (Cl_good sn Hwf W lf Hfuel d) (qS sn q)); eauto.
 Qed.
+
+(* the hypotheses are satisfiable: a query of depth 2 (a boolean whose must clauses are a boolean
+   of should clauses and a term, with an optional should clause that is a boolean with a must-not
+   clause) on the example index (2 segments, a pending delete) *)
+From Bluge Require Import Search.SearchersProofs.
+
+Definition ex_nested : query :=
+  QBool [QBool [] [QTerm 0 t_ab; QTerm 0 t_cab] [] 1; QTerm 0 t_ba]
+        [QBool [QTerm 0 t_ab] [] [QTerm 0 t_cab] 0] [] 0.
+
+Lemma search_exact_nested_example :
+  wf_sn ex_sn /\ qok 2 ex_nested /\ (2 * 2 + 1 <= depth_fuel ex_nested)%nat /\
+  run ex_sn copts_plain ex_nested = Ok [0; 3].
+Proof.
+  split; [exact ex_sn_wf|]. split.
+  - unfold ex_nested. cbn [qok].
+    repeat (first [apply Forall_nil | apply Forall_cons; cbn beta iota | split | exact I | lia
+                  | left; discriminate | right; left; discriminate | right; right; reflexivity]).
+  - split; [vm_compute; lia|vm_compute; reflexivity].
+Qed.
+
+(* ================= multi-term leaves ================= *)
+
+(* NewMultiTermSearcher: a disjunction (slice, or heap above DisjunctionHeapTakeover) over the term
+   searchers of the candidate terms.  For every list of terms it is a fresh kid-level searcher over
+   term leaves whose denotation is "at least max(min, 1) of the terms occur in the field". *)
+Definition multi_S (sn : snapshot) (f : Z) (ts : list (list Z)) : Z -> bool :=
+  disj_S (map (fun t => term_S sn f t) ts) multi_term_disjunction_min.
+
+Lemma multi_term_new : forall sn W f ts, wf_sn sn ->
+  (swidth (multi_term sn copts_plain f ts) <= W)%nat ->
+  KNew sn W (Cl sn W O) (multi_term sn copts_plain f ts) (multi_S sn f ts).
+Proof.
+  intros sn W f ts Hwf HW. unfold multi_term in *.
+  assert (HF : Forall2 (cnew sn O) (map (fun t => QTerm f t) ts) (map (term_searcher sn copts_plain f) ts)).
+  { clear HW. induction ts as [| t ts IH]; [constructor|]. cbn [map]. constructor; [|exact IH].
+    intros W' _. apply term_new. exact Hwf. }
+  destruct (disj_knew sn W O _ _ multi_term_disjunction_min HF HW) as [K _].
+  unfold multi_S. rewrite map_map in K. exact K.
+Qed.
+
+(* multi_term_spec: every script of Next / Advance calls (targets at or above the watermark) on the
+   searcher of a multi-term leaf returns exactly the remaining members of its denotation *)
+Theorem multi_term_spec : forall sn f ts W lf fuel ops outs,
+  wf_sn sn -> fuel_ok sn W lf -> (swidth (multi_term sn copts_plain f ts) <= W)%nat -> (2 <= fuel)%nat ->
+  script_ok (multi_S sn f ts) 0 ops outs ->
+  run_script lf fuel (multi_term sn copts_plain f ts) ops = Ok outs.
+Proof.
+  intros sn f ts W lf fuel ops outs Hwf Hfuel HW Hf Hs.
+  destruct fuel as [| [| fuel]]; try lia.
+  pose proof (leaf_good sn Hwf lf) as HL.
+  eapply (script_spec lf (Datatypes.S (Datatypes.S fuel)) (KInv sn W (leafP sn)) (KFin sn W (leafP sn))
+            (K_next sn W lf Hfuel (leafP sn) 1 HL (Datatypes.S fuel) ltac:(lia))
+            (K_adv sn W lf Hfuel (leafP sn) 1 HL (Datatypes.S fuel) ltac:(lia))); [|exact Hs].
+  apply (multi_term_new sn W f ts Hwf HW).
+Qed.
